@@ -836,6 +836,11 @@ class Table:
                 t = self._cmp(v[2], True, None, at)
                 add(path, '0', dnf_and(c, t)); add(path, '1', dnf_and(c, dnf_not(t)))
                 return
+            if v[0] == 'call' and self._is_bool(v):
+                # a boolean-valued test (flags.contains(F), opt.is_some(), ..) handed on as a value: the condition under which it is true
+                t = self._norm(v, [1], False, [0, 1], None, at)
+                add(path, '1', dnf_and(c, t)); add(path, '0', dnf_and(c, dnf_not(t)))
+                return
             add(path, self.show(v), c)
         if items is None:
             items = []
